@@ -968,6 +968,18 @@ def check_C18(tier, seed):
         out.coverage["transitions"] += r.states
         out.coverage["models"]["sim"] = dict(states=r.distinct, wall=round(r.wall, 1), inputs=len(inputs))
         log("VCellImpl sim: %d states (%.1fs)" % (r.distinct, r.wall))
+    # SimpleCycle as an inductive step over EVERY well-formed cycle on NPl planes (not only reachable ones): try_extend keeps
+    # well-formedness, glues exactly the triangle, refuses exactly the non-attachable ones; init clears every stale entry
+    npl = 6 if tier == "quick" else 7
+    cfgc = os.path.join(OUT, "tlc", "vcycleind.cfg")
+    write_cfg(cfgc, constants=dict(NPl=npl), invariants=["StepWF", "StepEdges", "Refuses", "InitWF"])
+    rc = run_tlc("mc/MCVCycleInd.tla", cfgc, timeout=3000)
+    if rc.violation:
+        raise ToolError("VCycle: the inductive step of SimpleCycle fails in the model: %s\n%s" % (rc.violation, rc.raw_tail[-2000:]))
+    out.coverage["states"] += rc.distinct
+    out.coverage["transitions"] += rc.states
+    out.coverage["models"]["VCycle inductive (all cycles on %d planes x all triangles)" % npl] = dict(states=rc.distinct, wall=round(rc.wall, 1))
+    log("VCycle inductive step, %d planes: %d (cycle, triangle) pairs (%.1fs)" % (npl, rc.distinct, rc.wall))
     # subsample the clip cases for replay (keep all with many removed vertices)
     lines = open(cases_file).read().splitlines()
     rng = random.Random(seed)
